@@ -1267,7 +1267,16 @@ class ParserProp(Prop):
 
 class C03(ParserProp):
     pid = "C03"
-    theorems = [("C03_complete", None)]
+    theorems = [("C03_complete", "forall (f : list message) (bs : list N), ok_in bs -> enc_file f bs -> parse bs = FileOk f"),
+                ("C03_streaming", "forall (f : list message) (bs : list N) (k : nat), ok_in bs -> enc_file f bs -> "
+                 "sp_calls k (sp_new bs) = firstn k (map SEvent (flat_map flatten_msg f) ++ repeat SNone k)"),
+                ("C03_unique", "forall (bs : list N) (f1 f2 : list message), ok_in bs -> enc_file f1 bs -> enc_file f2 bs -> f1 = f2")]
+    level_text = ("Theorems C03_complete, C03_streaming, C03_unique (Coq, closed): for every abstract file f and every byte string bs in the "
+                  "grammar relation enc_file f bs (Spec/Grammar.v, written independently of the parsers: all TLF sizes incl. non-minimal, "
+                  "every integer byte count of a width class, optional masks, both time encodings, 1/2-byte CRC field), complete::parse "
+                  "returns exactly f and the streaming parser exactly f's events then None; the grammar is unambiguous. Proved production "
+                  "by production (parser sound and complete for each), lists by induction on the entries. Oracle: generator AST and "
+                  "independent Python reference reading vs the real parsers' output.")
     rule = ("random SML files (open/close/get-list responses, 0..40 list entries crossing the 15/16 TLF boundary, all ten value "
             "variants and status widths, every optional field present/absent, both time encodings) x random valid encodings "
             "(integer width within the class, non-minimal multi-byte TLFs, 1- or 2-byte CRC field) + the real meter payloads of "
@@ -1299,7 +1308,20 @@ class C03(ParserProp):
 
 class C04(ParserProp):
     pid = "C04"
-    theorems = [("C04_sound", None)]
+    theorems = [("C04_sound", "forall (bs : list N) (f : list message), ok_in bs -> parse bs = FileOk f -> enc_file f bs"),
+                ("C04_exact", "forall (bs : list N) (f g : list message), ok_in bs -> parse bs = FileOk f -> enc_file g bs -> f = g"),
+                ("C04_rejects", "forall bs : list N, ok_in bs -> (forall f, ~ enc_file f bs) -> exists e, parse bs = FileErr e"),
+                ("C04_iff", "forall (bs : list N) (f : list message), ok_in bs -> (parse bs = FileOk f <-> enc_file f bs)"),
+                ("C04_streaming_sound", "forall (bs : list N) (evs : list event), ok_in bs -> "
+                 "sp_calls (S (length evs)) (sp_new bs) = map SEvent evs ++ [SNone] -> "
+                 "exists f, enc_file f bs /\\ flat_map flatten_msg f = evs"),
+                ("C04_streaming_rejects", None)]
+    level_text = ("Theorems C04_sound, _exact, _rejects, _iff, _streaming_sound, _streaming_rejects (Coq, closed): complete::parse returns "
+                  "f only if bs is in the grammar relation enc_file f bs (arities, types, byte-swapped CRC-16/X.25 over the bytes before "
+                  "the checksum field, 0x00 end marker, nothing left over), f is the unique grammatical content, every byte string "
+                  "outside the grammar yields an error from both parsers, and an error-free streaming run that reaches None produced "
+                  "exactly a grammatical file's events. Oracle: real parsers accept iff the independent Python reference reading accepts "
+                  "(then same content) on CRC-fixed-up corruptions.")
     rule = ("corruptions of valid files: bit flips, field-start byte replacement, truncation, insertion, deletion, duplicated / "
             "swapped fields, list-length nibble edits, TLFs replaced by ones declaring arbitrary lengths - message CRC recomputed in "
             "3/4 of the cases - plus raw flips/truncations/extensions and mutated real payloads. Oracle: the parsers return data iff "
@@ -1943,10 +1965,10 @@ class C11(Prop):
         return bad
 
 
-REGISTRY = {"C01": C01, "C02": C02, "C05": C05, "C06": C06, "C07": C07, "C08": C08, "C09": C09, "C10": C10, "C11": C11, "C12": C12, "C13": C13, "C14": C14, "C15": C15, "C16": C16, "C17": C17, "C18": C18}
+REGISTRY = {"C01": C01, "C02": C02, "C03": C03, "C04": C04, "C05": C05, "C06": C06, "C07": C07, "C08": C08, "C09": C09, "C10": C10, "C11": C11, "C12": C12, "C13": C13, "C14": C14, "C15": C15, "C16": C16, "C17": C17, "C18": C18}
 
 NOT_CLAIMED = {}
-for _p in ["C03", "C04"]:
+for _p in []:
     NOT_CLAIMED[_p] = "check under construction in this revision (model/theorem not yet committed); the technique applies, see DESIGN.md section 5"
 
 
